@@ -75,12 +75,31 @@ def tokens_not_moved(res, rng, big):
                        {"kind": "moved", "name": name, "src": src})
 
 
+STORED = ["/* caf\u00e9 cr\u00e8me \u00e0 la fa\u00e7on */ int  g_x;\n", "\ts = \"\u00e9t\u00e9 \u00e0 No\u00ebl\" ;\n", "// \u6f22\u5b57\n\tx = 08;\n",
+          "int\tg_a;\t/* \u20ac */\t@\n", "char\t*g_s = \"\u00fc\u00f1\" \"\\q\";\n", "\tc = '\u00e9' + 0b2;  /* \u00e9\u00e9 */ x = 1.2.3;\n"]
+
+
+def stored_files(res, rng, big):
+    """positions do not depend on how the text reached the lexer: the file stored on disk (UTF-8) and read by the
+    real command line reports every diagnostic where the in-process analysis of the same text reports it — with
+    characters outside ASCII (one column each) in front of the tokens"""
+    import diskcheck
+    srcs = list(STORED)
+    for _ in range(40 if big else 8):
+        ch = rng.choice(diskcheck.NON_ASCII)
+        pre = rng.choice(["/* %s */ ", "\"%s\" ", "'%s' ", "/* %s\t%s */\t"]).replace("%s", ch * rng.randint(1, 4))
+        srcs.append(rng.choice(["", "\t", "int\tg_v;  "]) + pre + rng.choice(["x  = 08;", "@ y;", "z = 'ab;", "w = 1e+ ;", "\t$", "v = \"\\q\" ;"]) + "\n")
+    for src in srcs:
+        diskcheck.disk_vs_text(res, "p.c", src, stream="stored")
+
+
 def run(res, tier, br, model_ok=True, search=False):
     import random
     dis = lexcommon.run_lex(res, tier, want=("C09",), model_ok=model_ok, proj=proj)
     lexcommon.handle_disagreements(res, dis, ("C09",), proj, "token types and positions")
     printed_positions(res, random.Random(res.seed + 5), tier == "thorough" or search)
     tokens_not_moved(res, random.Random(res.seed + 6), tier == "thorough" or search)
+    stored_files(res, random.Random(res.seed + 7), tier == "thorough" or search)
 
 
 def reproduce(res, k):
@@ -101,6 +120,9 @@ def replay(rp):
         tr = run_traced(rp["name"], src)
         print("source:", repr(src[:200])); print("token positions overwritten by rules:", tr.get("moved"))
         return 1 if tr.get("moved") else 0
+    if rp.get("kind") == "disk":
+        import diskcheck
+        return diskcheck.replay(rp)
     if rp.get("kind") == "printed":
         import core
         global PRINTED
